@@ -320,13 +320,20 @@ def receiver(it: Interp, regions: Sequence[Region], rec: Recorder, **over: Any) 
     return it.instance(CLS, attrs={"entries": ents, "pairs": pairs}, over=ov)
 
 
+_LOOPS = [0]
+
+
 def attempt(thunk: Callable[[], Any]) -> Tuple[str, Any]:
-    """('value', v) | ('raise', ProgramError) | ('loop', StepLimit); NotEvaluable propagates."""
+    """('value', v) | ('raise', ProgramError) | ('loop', StepLimit); NotEvaluable propagates.  A fragment that ran into the
+    step limit twice is not interpreted again in this run (every further case would spend the whole budget as well)."""
+    if _LOOPS[0] >= 2:
+        return "loop", StepLimit("not interpreted again: the fragment already exceeded the step budget on smaller inputs")
     try:
         return "value", thunk()
     except ProgramError as pe:
         return "raise", pe
     except StepLimit as sl:
+        _LOOPS[0] += 1
         return "loop", sl
 
 
